@@ -61,6 +61,18 @@ Proof.
   apply N.eqb_eq in H. subst. reflexivity.
 Qed.
 
+(* a rune with an ASCII upper-case image is not white space, and neither is its image *)
+Definition up_key_ok (kv : N * N) : bool :=
+  let x := fst kv in negb (space x) && negb (x =? 32) && negb (x =? 9) && negb (x =? 10).
+Lemma up_keys_ok : forallb up_key_ok upper_ascii_tab = true.
+Proof. vm_compute. reflexivity. Qed.
+Lemma up_nows : forall x u, upper x = Some u -> space x = false /\ x <> 32 /\ x <> 9 /\ x <> 10.
+Proof.
+  intros x u H. apply assoc_in in H. pose proof up_keys_ok as T. rewrite forallb_forall in T. specialize (T _ H).
+  unfold up_key_ok in T. cbn [fst] in T. repeat (apply andb_prop in T; destruct T as [T ?]).
+  split; [apply negb_true_iff; exact T|]. repeat split; apply N.eqb_neq; apply negb_true_iff; assumption.
+Qed.
+
 (* the keyword table holds upper-case ASCII letters only (so that a converted keyword is a fixed point) *)
 Lemma keywords_upper : forallb (forallb (fun b => (65 <=? b) && (b <=? 90))) keywords_tab = true.
 Proof. vm_compute. reflexivity. Qed.
